@@ -133,26 +133,43 @@ def _kernel(spec):
     raise ValueError(m)
 
 
+def _pform(spec):
+    """a deterministic choice (from the spec itself) of the FORM in which scalar / index parameters are handed to the
+    constructors: plain Python values, numpy scalar types, or (for index arrays) list / tuple / ndarray"""
+    import json
+    import zlib
+    return zlib.crc32(json.dumps(spec, sort_keys=True, default=str).encode()) % 3
+
+
+def _i(spec, v):
+    return [int(v), np.int64(v), np.int32(v)][_pform(spec)]
+
+
+def _f(spec, v):
+    return v if v is None else [v, np.float64(v), np.array(float(v))[()]][_pform(spec)]
+
+
 def build(spec):
     k = spec['k']
     if k == 'poly':
-        return pykoop.PolynomialLiftingFn(order=spec['order'], interaction_only=spec['io'])
+        return pykoop.PolynomialLiftingFn(order=_i(spec, spec['order']), interaction_only=[bool(spec['io']), np.bool_(spec['io']), bool(spec['io'])][_pform(spec)])
     if k == 'bilinear':
         return pykoop.BilinearInputLiftingFn()
     if k == 'const':
         return pykoop.ConstantLiftingFn()
     if k == 'rbf':
         return pykoop.RbfLiftingFn(rbf=spec.get('rbf', 'gaussian'), centers=_centers(spec),
-                                   shape=spec.get('shape', 1), offset=spec.get('offset', None))
+                                   shape=_f(spec, spec.get('shape', 1)), offset=_f(spec, spec.get('offset', None)))
     if k == 'kernel':
         return pykoop.KernelApproxLiftingFn(kernel_approx=_kernel(spec))
     if k == 'sk':
         return pykoop.SkLearnLiftingFn(_SCALERS[spec['scaler']]())
     if k == 'angle':
-        return pykoop.AnglePreprocessor(angle_features=np.array(spec['feat'], dtype=int),
-                                        unwrap_inverse=spec.get('unwrap', False))
+        feat = [np.array(spec['feat'], dtype=int), np.array(spec['feat'], dtype=np.int32),
+                np.array(spec['feat'], dtype=int)[::1].copy()][_pform(spec)]
+        return pykoop.AnglePreprocessor(angle_features=feat, unwrap_inverse=spec.get('unwrap', False))
     if k == 'delay':
-        return pykoop.DelayLiftingFn(n_delays_state=spec['dx'], n_delays_input=spec['du'])
+        return pykoop.DelayLiftingFn(n_delays_state=_i(spec, spec['dx']), n_delays_input=_i(spec, spec['du']))
     if k == 'split':
         return pykoop.SplitPipeline(
             lifting_functions_state=[(f's{i}', build(s)) for i, s in enumerate(spec['a'])] or None,
